@@ -127,6 +127,10 @@ func applyJSONPatches(jsonPatches jsonpatch.Patch, docBytes []byte) (result []by
 			return nil, err
 		}
 
+		if err := validateDestinationIndex(jsonPatches[i], docBytes); err != nil {
+			return nil, err
+		}
+
 		docBytes, err = jsonPatches[i : i+1].Apply(docBytes)
 		if err != nil {
 			return nil, err
@@ -158,6 +162,61 @@ func validateCopy(op map[string]*json.RawMessage) error {
 	}
 
 	return fmt.Errorf("%s: cannot copy '%s' into itself: '%s'", patch.JSONPatch, from, path)
+}
+
+// validateDestinationIndex refuses a "copy" or "move" operation whose destination is an index beyond the end of
+// the array it addresses. RFC 6902 (4.1) makes such an index an error; the json-patch library instead grows the
+// array up to the index it is told to set, so a patch of a few bytes could allocate gigabytes.
+func validateDestinationIndex(op map[string]*json.RawMessage, docBytes []byte) error {
+	if kind := stringMember(op, "op"); kind != "copy" && kind != "move" {
+		return nil
+	}
+
+	path := stringMember(op, "path")
+
+	tokens := strings.Split(path, "/")
+	if len(tokens) < 2 {
+		// not a JSON pointer: the library refuses the operation itself
+		return nil
+	}
+
+	index, err := strconv.Atoi(tokens[len(tokens)-1])
+	if err != nil {
+		// not an array index ("-" appends): nothing to check
+		return nil
+	}
+
+	var node interface{}
+	if err := json.Unmarshal(docBytes, &node); err != nil {
+		return err
+	}
+
+	// walk to the container of the destination; where the walk fails the library refuses the operation itself
+	for _, token := range tokens[1 : len(tokens)-1] {
+		switch container := node.(type) {
+		case map[string]interface{}:
+			node = container[pointerTokenDecoder.Replace(token)]
+		case []interface{}:
+			i, err := strconv.Atoi(token)
+			if err != nil {
+				return nil
+			}
+
+			if i < 0 || i >= len(container) {
+				return nil
+			}
+
+			node = container[i]
+		default:
+			return nil
+		}
+	}
+
+	if array, ok := node.([]interface{}); ok && index > len(array) {
+		return fmt.Errorf("%s: array index out of range: '%s'", patch.JSONPatch, path)
+	}
+
+	return nil
 }
 
 func stringMember(op map[string]*json.RawMessage, name string) string {
